@@ -276,6 +276,11 @@ class Interp:
             if d.get("storageClass") == "static":
                 # a function-local static keeps state between calls: outside the model (treated as a fresh local) -> flagged
                 self.effects["externals"].add("static-local:" + str(d.get("name")))
+                if getattr(self, "flag_statics", False):
+                    self.c.oblige("%s/%s/no-function-local-static (state that survives the call and the simulation)" %
+                                  (self.prop, self.where(n, fr)), z3.BoolVal(False), "ensures")
+                    raise PathAbort("function-local static")
+                raise Unsupported("function-local static %s at %s: state outside the object" % (d.get("name"), self.where(n, fr)))
             if init and init[0].get("kind"):
                 v = self.ev(init[0], fr)
                 k = kind_of_type(t)
@@ -1116,6 +1121,8 @@ class Interp:
         t = norm_type(n["type"]["qualType"])
         args = [x for x in n.get("inner", []) if x.get("kind")]
         if "poisson_distribution" in t:
+            if not args:
+                raise Unsupported("default-constructed poisson_distribution at %s" % self.where(n, fr))
             return Opaque("poisson", self.to_real(self.ev(args[0], fr)))
         if "normal_distribution" in t:
             return Opaque("normal", self.to_real(self.ev(args[0], fr)), self.to_real(self.ev(args[1], fr)))
